@@ -289,8 +289,10 @@ theorem shape_ok :
     Gen.C36.readSteps = ["length", "declared_length", "read_bounded", "read_length", "json", "dict", "get_token",
       "str_nonempty_maxlen", "encodable", "return"] ∧
     Gen.C36.disabledShapeOk = true ∧ Gen.C36.disabledReadsRequest = false ∧ Gen.C36.wiringOk = true ∧
-    Gen.C36.limiterShapeOk = true ∧ Gen.C36.limiterWindowTicks = 1024 := by
-  refine ⟨by rfl, by rfl, by rfl, by rfl, by rfl, by rfl, by rfl, by rfl, by rfl, by rfl⟩
+    Gen.C36.limiterShapeOk = true ∧ Gen.C36.limiterWindowTicks = 1024 ∧
+    Gen.C36.allowElem = "identity" ∧ Gen.C36.allowFilter = "raw" ∧ Gen.C36.allowEmptyRaises = true ∧
+    Gen.C36.allowWired = true := by
+  refine ⟨by rfl, by rfl, by rfl, by rfl, by rfl, by rfl, by rfl, by rfl, by rfl, by rfl, by rfl, by rfl, by rfl, by rfl⟩
 
 /-- `_JWS_SHAPED.match(token)` holds exactly for three dot-separated base64url segments, optionally followed by
 one newline (`$`); in particular every JWS-shaped subject is caught. -/
@@ -568,6 +570,74 @@ theorem C36_serve_authorized (allow : List (List Char)) (perWindow : Nat) (lim :
   rw [Aux.reaches_eq, (authorized_iff ⟨allow, true⟩ c).2 h]
   simp
 
+/-! ### the configured allow-list -/
+
+theorem Aux.configure_eq (configured : List (List Char)) :
+    configure configured =
+      if (configured.filter fun p => !p.isEmpty).isEmpty then none else some (configured.filter fun p => !p.isEmpty) := by
+  have hk : allowKeeps = fun p => !p.isEmpty := by
+    funext p; simp [allowKeeps, Gen.C36.allowFilter]
+  have he : allowElemOf = fun p => p := by
+    funext p; simp [allowElemOf, Gen.C36.allowElem]
+  unfold configure
+  rw [hk, he]
+  simp [Gen.C36.allowEmptyRaises]
+
+/-- The effective allow-list is exactly the configured names: a principal is on it iff it is non-empty and occurs,
+as written, among the configured entries.  Blank entries name nobody; nothing is trimmed, folded or added. -/
+theorem C36_allowlist_exact (configured allow : List (List Char)) (h : configure configured = some allow)
+    (p : List Char) : p ∈ allow ↔ Listed configured p := by
+  rw [Aux.configure_eq] at h
+  split at h
+  · cases h
+  · simp only [Option.some.injEq] at h
+    subst h
+    unfold Listed
+    simp only [List.mem_filter, Bool.not_eq_true', List.isEmpty_eq_false_iff]
+    exact ⟨fun ⟨a, b⟩ => ⟨b, a⟩, fun ⟨a, b⟩ => ⟨b, a⟩⟩
+
+/-- No permissive default: a configuration naming nobody (missing, empty, only blank entries) is refused at construction. -/
+theorem C36_allowlist_required (configured : List (List Char)) :
+    configure configured = none ↔ ∀ p ∈ configured, p = [] := by
+  rw [Aux.configure_eq]
+  constructor
+  · intro h
+    split at h
+    · rename_i he
+      intro p hp
+      cases p with
+      | nil => rfl
+      | cons a t =>
+        have : (a :: t) ∈ configured.filter fun p => !p.isEmpty := by
+          simp only [List.mem_filter]; exact ⟨hp, by simp⟩
+        rw [List.isEmpty_iff.mp he] at this
+        simp at this
+    · cases h
+  · intro h
+    have : (configured.filter fun p => !p.isEmpty) = [] := by
+      rw [List.filter_eq_nil_iff]
+      intro p hp
+      simp [h p hp]
+    simp [this]
+
+/-- 403 against the *configured* allow-list, for every configuration the factory accepts: every caller that is not
+authenticated, or whose principal is not one of the configured names — in particular every caller that authenticated
+without a principal (`auth.principal or ""` = `""`), whatever blank / duplicate / padded entries the configuration holds —
+gets the 403, at any limiter state, with the body unread, the resolver and the limiter untouched. -/
+theorem C36_403_configured (configured allow : List (List Char)) (h : configure configured = some allow)
+    (perWindow : Nat) (lim : LimState) (now : Int) (c : Caller) (rq : Req) (res : Resolver)
+    (hc : ¬ (c.authenticated = true ∧ Listed configured c.principal)) :
+    serve allow perWindow lim now c rq res = (lim, (forbidden403, ⟨false, 0⟩)) := by
+  apply C36_403_any_state
+  intro ⟨ha, hm⟩
+  exact hc ⟨ha, (C36_allowlist_exact configured allow h c.principal).1 hm⟩
+
+/-- the empty caller key is never on an accepted allow-list -/
+theorem C36_403_no_principal (configured allow : List (List Char)) (h : configure configured = some allow)
+    (perWindow : Nat) (lim : LimState) (now : Int) (c : Caller) (rq : Req) (res : Resolver) (hp : c.principal = []) :
+    serve allow perWindow lim now c rq res = (lim, (forbidden403, ⟨false, 0⟩)) :=
+  C36_403_configured configured allow h perWindow lim now c rq res (fun ⟨_, hl⟩ => hl.1 hp)
+
 /-! ### non-vacuity -/
 
 private def cfg0 : Cfg := ⟨["proxy".toList], true⟩
@@ -594,6 +664,12 @@ example : JwsShaped "a.b.".toList := ⟨['a'], ['b'], [], rfl, by simp, by simp,
 example : ((serveAll cfg0.allow 1 LimState.fresh
     [⟨5000, proxy, rq0 "known", res0⟩, ⟨5001, proxy, rq0 "known", res0⟩, ⟨5002, ⟨true, "mallory".toList⟩, rq0 "known", res0⟩,
      ⟨6100, proxy, rq0 "known", res0⟩]).map (·.1.status)) = [200, 429, 403, 200] := by decide
+example : configure ["proxy".toList, [], " ".toList, "proxy".toList] = some ["proxy".toList, " ".toList, "proxy".toList] := by decide
+example : configure [[], []] = none ∧ configure [] = none := by decide
+example : Listed ["proxy".toList, []] "proxy".toList ∧ ¬ Listed ["proxy".toList, []] [] := by
+  constructor
+  · exact ⟨by decide, by decide⟩
+  · intro h; exact h.1 rfl
 example : classOf (rq0 "known") = classOf (rq0 "other") ∧ classOf (rq0 "a.b.c") = .jws := by decide
 
 end VgiVerif.C36
